@@ -71,7 +71,7 @@ def matrix(tier):
         return runs
     for p in PLANS:
         for i, w in enumerate([1, 2, 3, 4, 6, 8]):
-            runs.append(gen_run(p, "gen-w%d" % w, workers=w, programs=5, ops=70, seed_off=i,
+            runs.append(gen_run(p, "gen-w%d" % w, workers=w, programs=8, ops=90, seed_off=i,
                                 mutators=1 + i % 2))
         runs.append(gen_run(p, "gen-vo", feats=["vo_bit"], programs=5, ops=70, seed_off=10))
         runs.append(gen_run(p, "gen-vo-small", feats=["vo_bit"], programs=5, ops=70, heap=10,
